@@ -119,6 +119,24 @@ func (w *SW) CrashReopen() error {
 	return w.Open()
 }
 
+// Restart is a clean restart: Stop, then either a new Store over the same datastore or - the Store
+// supports it - Start on the very same object (whose queues, caches and registered handlers live on).
+func (w *SW) Restart() error {
+	if err := w.Stop(); err != nil {
+		return fmt.Errorf("stop: %w", err)
+	}
+	if !w.S.Tape.Coin("restart-same-object", 1, 3) {
+		return w.Open()
+	}
+	w.S.Probe("restart-of-the-same-store-object")
+	var err error
+	_, fin := w.S.Do("start-again", opBudget, func() { err = w.St.Start(context.Background()) })
+	if !fin {
+		return errors.New("start: did not finish")
+	}
+	return err
+}
+
 func (w *SW) Stop() error {
 	var err error
 	_, fin := w.S.Do("stop", opBudget, func() { err = w.St.Stop(context.Background()) })
